@@ -17,6 +17,7 @@ import (
 	"fmt"
 	"os"
 	"os/exec"
+	"reflect"
 	"regexp"
 	"runtime"
 	"runtime/debug"
@@ -191,6 +192,8 @@ func (op C12Op) Coq() string {
 		return fmt.Sprintf("TakeColumn %d", op.N)
 	case "addheaders":
 		return fmt.Sprintf("AddHeaders %d", op.N)
+	case "addsep":
+		return "AddSeparator"
 	case "touch":
 		return "Touch " + op.O.Coq()
 	case "newcellof":
@@ -225,6 +228,8 @@ func (op C12Op) Go() string {
 		return fmt.Sprintf("handle(new) := t.Column(%d)", op.N)
 	case "addheaders":
 		return fmt.Sprintf("t.AddHeaders(<%d items>)", op.N)
+	case "addsep":
+		return "t.AddSeparator(); row(new) := t.AllRows()[last]"
 	case "newcellof":
 		return fmt.Sprintf("det(new) := tabular.NewCell(*%s)", op.O)
 	case "touch":
@@ -253,7 +258,55 @@ type C12Spec struct {
 	Keys  []int      `json:"keys"`
 	Watch []C12Owner `json:"watch"`
 	Ops   []C12Op    `json:"ops"`
+	// what the value numbered v is in Go: 0 the int v; 1 a pointer, 2 a map,
+	// 3 a slice - one fresh object per number, ALL with equal contents, told
+	// apart by identity only; 4 mixed (v%4 picks among the four)
+	VK int `json:"vk,omitempty"`
 }
+
+// ---------------------------------------------------------------- values
+// "a get returns the value most recently set": for objects that means THAT
+// object, not an earlier one with equal contents.  Every object value carries
+// the same contents at the moment of the set; what was stored is recognised by
+// identity.
+
+type c12obj struct {
+	Name string
+}
+
+var c12Vals = map[[2]int]interface{}{}
+var c12ValIDs = map[uintptr]int{}
+
+func c12ValKind(vk, v int) int {
+	if vk == 4 {
+		return v % 4
+	}
+	return vk
+}
+
+func c12Val(vk, v int) interface{} {
+	kind := c12ValKind(vk, v)
+	if kind == 0 {
+		return v
+	}
+	if x, ok := c12Vals[[2]int{kind, v}]; ok {
+		return x
+	}
+	var x interface{}
+	switch kind {
+	case 1:
+		x = &c12obj{Name: "same"}
+	case 2:
+		x = map[string]int{"same": 1}
+	default:
+		x = append(make([]int, 0, 4), 1, 2)
+	}
+	c12Vals[[2]int{kind, v}] = x
+	c12ValIDs[reflect.ValueOf(x).Pointer()] = v
+	return x
+}
+
+var c12ValKindNames = []string{"ints", "distinct pointers to structs with equal contents", "distinct maps with equal contents", "distinct slices with equal contents", "ints / pointers / maps / slices by v%4"}
 
 // ---------------------------------------------------------------- the real library
 
@@ -274,6 +327,7 @@ type c12World struct {
 	pos     []int // row number in the table (1-based), 0 = not in the table
 	dets    []*tabular.Cell
 	handles []c12Handle
+	vk      int
 }
 
 var c12ColRe = regexp.MustCompile(`C\((\d+), "", \d+cbs\)`)
@@ -383,6 +437,13 @@ func c12Enc(v interface{}) int {
 	if i, ok := v.(int); ok && i >= 0 && i < 90 {
 		return i + 1
 	}
+	switch v.(type) {
+	case *c12obj, map[string]int, []int:
+		if id, ok := c12ValIDs[reflect.ValueOf(v).Pointer()]; ok {
+			return id + 1
+		}
+		return 96 // an object of ours, but not one that was ever handed to SetProperty
+	}
 	return 97
 }
 
@@ -401,7 +462,7 @@ func (w *c12World) step(op C12Op) int {
 		}
 		var v interface{}
 		if op.V > 0 {
-			v = op.V
+			v = c12Val(w.vk, op.V)
 		}
 		if err := po.SetProperty(c12Keys[op.Key].v, v); err != nil {
 			return 1
@@ -473,6 +534,12 @@ func (w *c12World) step(op C12Op) int {
 			items[i] = fmt.Sprintf("h%d", i)
 		}
 		w.t.AddHeaders(items...)
+		return c12OK
+	case "addsep":
+		w.t.AddSeparator()
+		all := w.t.AllRows()
+		w.rows = append(w.rows, all[len(all)-1])
+		w.pos = append(w.pos, len(all))
 		return c12OK
 	case "newcellof":
 		var p *tabular.Cell
@@ -569,7 +636,7 @@ type c12StepObs struct {
 // c12ExecuteSteps runs the history in THIS process, handing over every step's
 // observation as soon as it exists
 func c12ExecuteSteps(sp *C12Spec, emit func(c12StepObs)) (panicMsg string) {
-	w := &c12World{t: tabular.New()}
+	w := &c12World{t: tabular.New(), vk: sp.VK}
 	for _, op := range sp.Ops {
 		var so c12StepObs
 		func() {
@@ -861,6 +928,9 @@ func (a *c12Abs) step(op C12Op) int {
 			a.ncols = op.N
 		}
 		return c12OK
+	case "addsep":
+		a.rows = append(a.rows, [2]int{1, 0})
+		return c12OK
 	case "touch":
 		if _, ok := a.canon(*op.O); !ok {
 			return c12Invalid
@@ -1123,6 +1193,11 @@ func c12Scenarios() []c12Scenario {
 				{Op: "addheaders", N: 2}},
 			needs: []int{-1, -1, -1, 0, -1, -1, -1},
 			watch: []C12Owner{*own("cell", 0, 0), *own("det", 0), *own("det", 1), *own("row", 0), *own("col", 1)}},
+		// every separator is a row of its own
+		{name: "separators", minor: true, prefix: []C12Op{{Op: "addsep"}, {Op: "additems", N: 1}, {Op: "addsep"}},
+			a: own("row", 0), b: own("row", 2), bNeeds: -1,
+			extra: []C12Op{{Op: "addsep"}}, needs: []int{-1},
+			watch: []C12Owner{*own("row", 0), *own("row", 2), *own("row", 1), *own("row", 3)}},
 		{name: "table-row", minor: true, prefix: []C12Op{{Op: "additems", N: 1}},
 			a: own("table"), b: own("row", 0), bNeeds: -1,
 			watch: []C12Owner{*own("table"), *own("row", 0), *own("col", 0), *own("cell", 0, 0)}},
@@ -1318,7 +1393,11 @@ func c12Random(r *RNG, hostile bool) C12Spec {
 					push(C12Op{Op: "newcellof", O: pick(r, cs)})
 				}
 			default:
-				push(C12Op{Op: "addheaders", N: r.Intn(a.ncols + 3)})
+				if r.Bool() {
+					push(C12Op{Op: "addsep"})
+				} else {
+					push(C12Op{Op: "addheaders", N: r.Intn(a.ncols + 3)})
+				}
 			}
 		case p < 72:
 			if cs := cellOwners(); len(cs) > 0 {
@@ -1367,7 +1446,7 @@ func c12Random(r *RNG, hostile bool) C12Spec {
 			grown = true
 		}
 	}
-	sp := C12Spec{Ops: ops, Keys: c12SortedKeys(ops)}
+	sp := C12Spec{Ops: ops, Keys: c12SortedKeys(ops), VK: r.Intn(5)}
 	sp.Watch = c12WatchFor(ops, a)
 	return sp
 }
@@ -1418,7 +1497,7 @@ func c12Hostile() []C12Spec {
 		for _, op := range ops {
 			a.step(op)
 		}
-		out = append(out, C12Spec{Ops: ops, Keys: c12SortedKeys(ops), Watch: c12WatchFor(ops, a)})
+		out = append(out, C12Spec{Ops: ops, Keys: c12SortedKeys(ops), Watch: c12WatchFor(ops, a), VK: len(out) % 5})
 	}
 	allKeys := []int{0, 1, 2, 3, 4, 5, 6, 7}
 	// re-setting one key never grows the chain
@@ -1562,6 +1641,7 @@ func c12DeepOwners() []c12DeepOwner {
 		{"handle", []C12Op{{Op: "additems", N: 1}, {Op: "takecol", N: 1}, {Op: "additems", N: 25}}, own("handle", 0), false},
 		{"row", []C12Op{{Op: "additems", N: 2}}, own("row", 0), false},
 		{"detached-row", []C12Op{{Op: "newrow"}}, own("row", 0), false},
+		{"separator", []C12Op{{Op: "addsep"}, {Op: "addsep"}}, own("row", 1), false},
 		{"cell", []C12Op{{Op: "additems", N: 2}}, own("cell", 0, 1), true},
 		{"det", []C12Op{{Op: "newcell"}}, own("det", 0), true},
 	}
@@ -1649,7 +1729,7 @@ func c12Deep(d c12DeepOwner, n, rot int, plan [][2]int, withCopy bool) C12Spec {
 	if cp != nil {
 		watch = append(watch, *cp)
 	}
-	return C12Spec{Ops: ops, Keys: c12SortedKeys(ops), Watch: watch}
+	return C12Spec{Ops: ops, Keys: c12SortedKeys(ops), Watch: watch, VK: rot % 5}
 }
 
 // the deterministic part: every owner kind, boundary depths around the 16th
@@ -1706,7 +1786,7 @@ func c12Shrink(spec json.RawMessage) []json.RawMessage {
 	}
 	var out []json.RawMessage
 	emit := func(ops []C12Op, watch []C12Owner) {
-		out = append(out, mustJSON(C12Spec{Ops: ops, Keys: c12SortedKeys(ops), Watch: watch}))
+		out = append(out, mustJSON(C12Spec{Ops: ops, Keys: c12SortedKeys(ops), Watch: watch, VK: sp.VK}))
 	}
 	for i := range sp.Ops {
 		ops := append(append([]C12Op{}, sp.Ops[:i]...), sp.Ops[i+1:]...)
@@ -1736,6 +1816,9 @@ func c12Shrink(spec json.RawMessage) []json.RawMessage {
 	for i := range sp.Watch {
 		w := append(append([]C12Owner{}, sp.Watch[:i]...), sp.Watch[i+1:]...)
 		emit(sp.Ops, w)
+	}
+	if sp.VK != 0 {
+		out = append(out, mustJSON(C12Spec{Ops: sp.Ops, Keys: sp.Keys, Watch: sp.Watch}))
 	}
 	return out
 }
@@ -1819,7 +1902,7 @@ func init() {
 		CaseType: "c12_case",
 		CaseFn:   "C12_case",
 		ModelFn:  "C12_model",
-		Rule: "histories of {SetProperty v, SetProperty nil, GetProperty, c2 := *cell, NewCell, NewCell(cell), NewRow, AddHeaders (first / repeated / shorter / longer / empty), things that are not sets and must change nobody's map (Cell.Update after mutating the item - text changed or not -, String/Height/Lines, CSV / HTML / JSON renders, Headers(), %#v), Row.Add(copy) on a row not yet in the table, AddRow, AddRowItems (growth to 25 columns), t.Column(n) handle taken and used later} " +
+		Rule: "histories of {SetProperty v (v per case: ints, or distinct pointers / maps / slices that all have equal contents and are told apart by identity only - a get must return the very object last set -, or a mix), SetProperty nil, GetProperty, AddSeparator (every separator row, taken from AllRows(), is an owner of its own), c2 := *cell, NewCell, NewCell(cell), NewRow, AddHeaders (first / repeated / shorter / longer / empty), things that are not sets and must change nobody's map (Cell.Update after mutating the item - text changed or not -, String/Height/Lines, CSV / HTML / JSON renders, Headers(), %#v), Row.Add(copy) on a row not yet in the table, AddRow, AddRowItems (growth to 25 columns), t.Column(n) handle taken and used later} " +
 			"over owners table / column n incl. 0 / handle / row / cell through CellAt / detached cell copy, keys from {int 1, int64 1, \"1\", two pointers, two struct keys, int 2, and pointer keys of different types holding the same address: &struct / &struct.firstField, a named pointer type / *T, (*int)(nil) / (*string)(nil), pointers to two zero-size types} plus, for the deep-chain stream, the values 3..10 as int / int64 / string / pointer / struct / uint8 / float64 / named int32; " +
 			"after every step every watched owner is read under every key and its chain length is read off %#v; every history runs in a process of its own (package-level state cannot leak between cases; a fatal crash such as a stack overflow on a cyclic chain is an observation, not a harness failure); " +
 			"every history of exactly 4 (thorough: 5) steps after a fixed prefix in the 3 two-owner scenarios with sharing (cell copy, Row.Add of a copy, copy of a copy) and of 3 (4) steps in the scenarios with a handle held across growth to 25 columns (column 1, column 0), a handle on a headers-only column across AddHeaders shorter / longer and body growth, a cell and its copy under non-set operations (Update after mutating the item, renders, NewCell(cell), AddHeaders), and plain independent owners (keys in order of first use, concrete key triple rotating), deterministic deep-chain / re-set / Row.Add / per-column-handle histories, a deep-chain stream (one owner of every kind - table, column 0, column n, handle held across growth, row in and out of the table, cell, detached copy - loaded with 18-40 distinct keys of eight dynamic types, then set nil / re-set / nil-then-set of the newest, 16th-20th, middle and oldest links, for cells alternately through a by-value copy; 24 keys re-set round-robin twice then all set to nil), and random histories with growth in the middle; " +
@@ -1843,7 +1926,7 @@ func init() {
 					triple := triples[ctr%len(triples)]
 					ctr++
 					all := append(append([]C12Op{}, sc.prefix...), c12RemapKeys(ops, triple)...)
-					out = append(out, mustJSON(C12Spec{Ops: all, Keys: c12SortedKeys(all, triple[0], triple[1], triple[2]), Watch: sc.watch}))
+					out = append(out, mustJSON(C12Spec{Ops: all, Keys: c12SortedKeys(all, triple[0], triple[1], triple[2]), Watch: sc.watch, VK: (ctr / len(triples)) % 5}))
 				})
 			}
 			for _, sp := range c12Hostile() {
@@ -1884,6 +1967,7 @@ func init() {
 			}
 			desc["go"] = prog
 			desc["keys"] = c12KeyNames(sp.Keys)
+			desc["values"] = "value number v is: " + c12ValKindNames[sp.VK%5] + " (a get must return the very object last set)"
 			if sig == "panic" && strings.Contains(pmsg, "did not survive") {
 				sig = "process-crash"
 			}
